@@ -29,6 +29,14 @@ def frame_bytes(frm: int, to: int, fid: int, typ: int, reserved: int, msg: bytes
     return (struct.pack("<HHHBB", frm & 0xFFFF, to & 0xFFFF, fid & 0xFFFF, typ & 0xFF, reserved & 0xFF) + msg).hex()
 
 
+# calls that only observe: RadioMixin pass-through getters and the nodes' read-only attributes
+OBSERVERS = ["rf get channel", "rf get power", "rf get listen", "rf get pa_level", "rf get is_lna_enabled", "rf get data_rate",
+             "rf get crc", "rf get_auto_retries", "rf get last_tx_arc", "rf address 0", "rf address 1", "rf address 5",
+             "rf address -1", "rf fifo T N", "rf fifo F N", "rf fifo F T", "rf get_dynamic_payloads 0", "rf get_dynamic_payloads 3",
+             "available", "peek", "get node_address", "get parent", "get fragmentation", "get multicast_level",
+             "get multicast_relay"]
+
+
 def session_tree(rng: random.Random, nnodes: int, nops: int, closed: bool = True, kinds=("network", "network", "routing")):
     tree = rand_tree(rng, nnodes)
     names = [f"n{i}" for i in range(len(tree))]
@@ -47,8 +55,10 @@ def session_tree(rng: random.Random, nnodes: int, nops: int, closed: bool = True
             typ = rng.choice([0, 1, 5, 64, 65, 70, 127, 127, 100, 190, 192, 200])
             n = rng.choice([0, 1, 5, 24, 24, 25, 48, 49, 100, 144])
             ops.append(f"{src} write {addr_of(dst)} {typ} {rbytes(rng, n)} 56")
-        elif x < 0.75:
+        elif x < 0.72:
             ops.append(f"{rng.choice(names)} update")
+        elif x < 0.77:
+            ops.append(f"{rng.choice(names)} {rng.choice(OBSERVERS)}")
         elif x < 0.9:
             ops.append(f"{rng.choice(names)} read")
         elif x < 0.95:
@@ -86,8 +96,16 @@ def session_mesh(rng: random.Random, njoin: int, nops: int):
             ops.append(f"m update")
         elif x < 0.9:
             ops.append(f"m lookup_address {rng.choice(ids + [0, 77])}")
-        elif x < 0.95:
+        elif x < 0.93:
             ops.append(f"{rng.choice(names + ['m'])} read")
+        elif x < 0.96:
+            ops.append(f"{rng.choice(names + ['m'])} {rng.choice(OBSERVERS + ['get node_id', 'get allow_children'])}")
+        elif x < 0.975:
+            # a message by address; longer than max_message_length it is cut to one frame's worth
+            ops.append(f"{n} mwrite {rng.choice([0, 1, 2, 0o11, 0o5, 0o4444, 0o6])} {rng.choice([1, 70, 127])} "
+                       f"{rbytes(rng, rng.choice([0, 4, 24, 30, 144, 150]))}")
+        elif x < 0.985:
+            ops.append(f"{n} set node_id {rng.choice([rng.randint(1, 255), 256 + rng.randint(1, 255), -3])}")
         else:
             ops.append(f"{n} update")
     return f"net {njoin + 1} 1 " + " ; ".join(ops)
